@@ -52,6 +52,18 @@ def c02(tier: str) -> int:
     for k in range(n):
         ver = rng.choice(VERSIONS)
         res = docs.random_resource(rng, ver, adversarial=rng.random() < 0.8)
+        # new and external children of an ExternalLexicalEntry / the entries and synsets of
+        # an extension in any order (the order of the loader's lists is part of the resource)
+        for L in res['lexicons']:
+            if L.get('extends') and rng.random() < 0.7:
+                for e in L['entries']:
+                    if e.get('external'):
+                        for key in ('forms', 'senses'):
+                            if len(e.get(key, [])) > 1:
+                                rng.shuffle(e[key])
+                if rng.random() < 0.5:
+                    rng.shuffle(L['entries'])
+                    rng.shuffle(L['synsets'])
         c = {'id': k + 1, 'res': res, 'versions': VERSIONS}
         if rng.random() < 0.25:
             c['foreign'], npres = add_preserve(res, rng)
@@ -83,10 +95,10 @@ def c20(tier: str) -> int:
                 tlc_model('MC_Accepts'))
     rng = random.Random(seed() + 20)
     cases = []
-    for k in range(400 if thorough else 70):
+    for k in range(400 if thorough else 48):
         ver = rng.choice(VERSIONS)
         res = docs.random_resource(rng, ver, adversarial=rng.random() < 0.7,
-                                   extension=False if rng.random() < 0.7 else None)
+                                   extension=rng.random() < 0.45)
         cases.append({'id': k + 1, 'res': res, 'seed': rng.randrange(10 ** 9), 'per_kind': 3 if thorough else 2})
     recs = run_cases('mutants', cases)
     jd = tlc_judge('Judge_C20', recs, cfg='Judge.cfg', shards=NCPU)
